@@ -46,7 +46,7 @@ def _size(spec):
 
 
 def c14_oracle(op, impl, spec):
-    if impl in PASSIVE or impl == 'hang' or impl.startswith('skipped'):
+    if impl in PASSIVE or impl.startswith('hang') or impl.startswith('skipped'):
         return True
     if impl.startswith('pipe'):
         return impl == 'pipe hang' or impl.endswith('pre=true')
@@ -71,6 +71,13 @@ _fin = re.compile(r'^fin q=\[([^\]]*)\]@d([01]) end=\[([^\]]*)\] lw=(\S+) lr=(\S
 def c15_oracle(op, impl, spec):
     if impl in PASSIVE:
         return True
+    if impl.startswith('hang '):
+        # un-hooked sequential call that did not return: legitimate only if it waits for bytes / space
+        # nobody has committed, on an open ring (quiescentOk)
+        m = re.match(r'hang \w+:(\d+):(\d+)@d([01])$', impl)
+        sw = spec.split()
+        size = int(sw[1]) if len(sw) == 2 and sw[0] == 'inv' else 16384
+        return bool(m) and m.group(3) == '0' and int(m.group(2)) < int(m.group(1)) <= size
     if impl == 'hang' or impl == 'pipe hang' or impl.startswith('skipped'):
         return False
     if impl.startswith('pipe'):
